@@ -409,3 +409,128 @@ def cases(tier):
         for meth in ("add_layer", "remove_layer", "change_kernel", "add_channel", "remove_channel"):
             cs += [CNNMutation(meth, (1, 2, 1))] + ([CNNMutation(meth, (1, 1, 1))] if meth != "change_kernel" else [])
     return cs
+
+
+# ------------------------------------------------------------------------------------------------ SimBa / LSTM / ResNet
+# These blocks keep ONE width and ONE count (scalars), with a layer pair and a node pair of mutation methods.
+
+import agilerl.modules.simba as simba_mod
+import agilerl.modules.lstm as lstm_mod
+import agilerl.modules.resnet as resnet_mod
+from agilerl.modules.simba import EvolvableSimBa
+from agilerl.modules.lstm import EvolvableLSTM
+from agilerl.modules.resnet import EvolvableResNet
+
+SCALAR_SPECS = {
+    "simba": dict(cls=EvolvableSimBa, mod=simba_mod, count="num_blocks", cmin="min_blocks", cmax="max_blocks", width="hidden_size", wmin="min_mlp_nodes",
+                  wmax="max_mlp_nodes", grow="add_block", shrink="remove_block", wide="add_node", narrow="remove_node", arg="numb_new_nodes",
+                  build=lambda c, w, cm, cM, wm, wM: EvolvableSimBa(2, 2, hidden_size=w, num_blocks=c, min_blocks=cm, max_blocks=cM, min_mlp_nodes=wm, max_mlp_nodes=wM),
+                  sample=lambda: torch.zeros(3, 2)),
+    "lstm": dict(cls=EvolvableLSTM, mod=lstm_mod, count="num_layers", cmin="min_layers", cmax="max_layers", width="hidden_size", wmin="min_hidden_size",
+                 wmax="max_hidden_size", grow="add_layer", shrink="remove_layer", wide="add_node", narrow="remove_node", arg="numb_new_nodes",
+                 build=lambda c, w, cm, cM, wm, wM: EvolvableLSTM(2, w, 2, num_layers=c, min_layers=cm, max_layers=cM, min_hidden_size=wm, max_hidden_size=wM),
+                 sample=lambda: torch.zeros(3, 4, 2)),
+    "resnet": dict(cls=EvolvableResNet, mod=resnet_mod, count="num_blocks", cmin="min_blocks", cmax="max_blocks", width="channel_size", wmin="min_channel_size",
+                   wmax="max_channel_size", grow="add_block", shrink="remove_block", wide="add_channel", narrow="remove_channel", arg="numb_new_channels",
+                   build=lambda c, w, cm, cM, wm, wM: EvolvableResNet([1, 6, 6], 2, channel_size=w, kernel_size=3, stride_size=1, num_blocks=c, min_blocks=cm, max_blocks=cM,
+                                                                      min_channel_size=wm, max_channel_size=wM),
+                   sample=lambda: torch.zeros(2, 1, 6, 6)),
+}
+
+
+class ScalarArchMutation(Case):
+    stubs = MLPMutation.stubs
+    assumptions = ("pre-state inside its declared bounds: min <= count <= max, min <= width <= max, min < max; explicit argument >= 1",)
+    outside = MLPMutation.outside
+
+    def __init__(self, block, role, given):
+        self.block, self.role, self.given = block, role, given
+        sp = SCALAR_SPECS[block]
+        self.method = sp[role]
+        self.functions = tuple(getattr(sp["cls"], sp[r]) for r in ("grow", "shrink", "wide", "narrow"))
+        self.name = f"{block}-{self.method}-{'args' if given else 'random'}"
+        self.site = f"{sp['cls'].__name__}.{self.method}"
+        self.bounds = {"block": block, "method": self.method, "symbolic": "count, width, their declared minima and maxima, the argument or the random draw"}
+        self._tmpl = None
+
+    def template(self):
+        if self._tmpl is None:
+            self._tmpl = SCALAR_SPECS[self.block]["build"](1, 4, 1, 3, 2, 16)
+        return self._tmpl
+
+    def run(self, v):
+        sp = SCALAR_SPECS[self.block]
+        c, w = v.int("count"), v.int("width")
+        cm, cM, wm, wM = v.int("min_count"), v.int("max_count"), v.int("min_width"), v.int("max_width")
+        v.assume(conj(cm >= 1, cm < cM, c >= cm, c <= cM, wm >= 1, wm < wM, w >= wm, w <= wM))
+        args = {}
+        if self.given and self.role in ("wide", "narrow"):
+            n = v.int("n")
+            v.assume(n >= 1)
+            args = {sp["arg"]: n}
+        rng = Rng(v)
+        if v.mode == "real":
+            try:
+                m = sp["build"](c, w, cm, cM, wm, wM)
+            except (AssertionError, RuntimeError, ValueError) as ex:
+                raise AssumptionFailed(f"constructor rejects the configuration: {ex}")
+            rec = Counting(m.recreate_network)
+        else:
+            m = self.template()
+            require(m, sp["count"], sp["cmin"], sp["cmax"], sp["width"], sp["wmin"], sp["wmax"], "recreate_network", "last_mutation_attr")
+            for attr, val_ in ((sp["count"], c), (sp["cmin"], cm), (sp["cmax"], cM), (sp["width"], w), (sp["wmin"], wm), (sp["wmax"], wM)):
+                setattr(m, attr, val_)
+            rec = Counting()
+        with patched((sp["mod"], "np", ShimNumpy({"random": rng})), (m, "recreate_network", rec)):
+            getattr(m, self.method)(**args)
+        c2, w2 = getattr(m, sp["count"]), getattr(m, sp["width"])
+        applied = m.last_mutation_attr
+        res = [Ob("recreate_network-called-exactly-once", len(rec.calls) == 1),
+               Ob("count-within-bounds", conj(c2 >= cm, c2 <= cM), site=self.site + "/bounds"),
+               Ob("width-within-bounds", conj(w2 >= wm, w2 <= wM), site=self.site + "/bounds")]
+
+        def width_effect(kind, n, tag):
+            new = w + n if kind == "wide" else w - n
+            inside = lt(new, wM) if kind == "wide" else gt(new, wm)
+            return [Ob(f"{tag}/applied-exactly-when-strictly-inside-the-bound", disj(neg(inside), eq(w2, new)), site=self.site + "/effect"),
+                    Ob(f"{tag}/width-is-old-or-advertised-new", disj(eq(w2, w), eq(w2, new)), site=self.site + "/effect"),
+                    Ob(f"{tag}/count-untouched", eq(c2, c), site=self.site + "/effect")]
+
+        if self.role in ("grow", "shrink"):
+            can = (c < cM) if self.role == "grow" else (c > cm)
+            took = applied == self.method
+            res.append(Ob("count-mutation-applied-iff-not-stopped-by-the-bound", eq(can, took) if isinstance(can, Sym) else bool(can) == took, site=self.site + "/effect"))
+            if took:
+                res.append(Ob("advertised-count-change-and-nothing-else", conj(eq(c2, c + 1 if self.role == "grow" else c - 1), eq(w2, w)), site=self.site + "/effect"))
+            else:
+                res.append(Ob("fallback-widens-and-last_mutation_attr-names-it", applied == sp["wide"], site=self.site + "/fallback"))
+                draws = [e[2] for e in rng.log if e[0] == "choice"]
+                if draws:
+                    res += width_effect("wide", draws[-1], "fallback")
+                else:
+                    res.append(Ob("fallback-draws-a-count", False))
+        else:
+            res.append(Ob("last_mutation_attr-names-the-method", applied == self.method))
+            n = args.get(sp["arg"]) if self.given else ([e[2] for e in rng.log if e[0] == "choice"] or [None])[-1]
+            if n is None:
+                res.append(Ob("draws-a-count", False))
+            else:
+                res += width_effect(self.role, n, self.method)
+        if self.role == "grow":
+            res.append(Ob("twin/never-grows", eq(c2, c), expect="sat"))
+        res.append(Ob("network-rebuilds-and-maps-a-batch-to-finite-outputs-of-its-shape",
+                      forward_ok(m, sp["sample"](), 2) if v.mode == "real" else True, site=self.site + "/rebuild"))
+        return res
+
+
+_cases_mlp_cnn = cases
+
+
+def cases(tier):   # noqa: F811
+    cs = _cases_mlp_cnn(tier)
+    for block in ("simba", "lstm", "resnet"):
+        cs += [ScalarArchMutation(block, "grow", False), ScalarArchMutation(block, "shrink", False), ScalarArchMutation(block, "wide", True),
+               ScalarArchMutation(block, "narrow", True)]
+        if tier == "thorough":
+            cs += [ScalarArchMutation(block, "wide", False), ScalarArchMutation(block, "narrow", False)]
+    return cs
